@@ -1,0 +1,74 @@
+//go:build verif
+
+// Contracts for govc (/verif): C07 snapshot encoding is canonical (positional/structural layer). Comment-only file.
+
+package common
+
+//@ spec DecOK(dec *Decoder) bool = dec != nil && dec.buf != nil
+//@ spec Pos(dec *Decoder) mathint = bytes.rdpos(*dec.buf)
+//@ spec Len(dec *Decoder) mathint = bytes.rdlen(*dec.buf)
+//@ spec Rest(dec *Decoder) mathint = bytes.rdlen(*dec.buf) - bytes.rdpos(*dec.buf)
+
+//@ -- Read(b): all-or-error. A short read returns a NON-EOF error and leaves the reader drained (this is what F3 is about).
+//@ func (dec *Decoder) Read
+//@   property C07
+//@   requires DecOK(dec)
+//@   modifies *dec.buf, b[..]
+//@   ensures [len] Len(dec) == old(Len(dec)) && Pos(dec) <= Len(dec)
+//@   ensures [ok] len(b) <= old(Rest(dec)) && (len(b) == 0 || old(Rest(dec)) > 0) ==> result == nil && Pos(dec) == old(Pos(dec)) + len(b)
+//@   ensures [eof] len(b) > 0 && old(Rest(dec)) <= 0 ==> result == io.EOF && Pos(dec) == old(Pos(dec))
+//@   ensures [short] len(b) > old(Rest(dec)) && old(Rest(dec)) > 0 ==> result != nil && result != io.EOF && Pos(dec) == Len(dec)
+
+//@ func (dec *Decoder) ReadUint64
+//@   property C07
+//@   requires DecOK(dec)
+//@   modifies *dec.buf
+//@   ensures [len] Len(dec) == old(Len(dec)) && Pos(dec) <= Len(dec)
+//@   ensures [ok] 8 <= old(Rest(dec)) ==> err == nil && Pos(dec) == old(Pos(dec)) + 8
+//@   ensures [eof] old(Rest(dec)) <= 0 ==> err == io.EOF && result0 == 0 && Pos(dec) == old(Pos(dec))
+//@   ensures [short] 0 < old(Rest(dec)) && old(Rest(dec)) < 8 ==> err != nil && err != io.EOF && result0 == 0 && Pos(dec) == Len(dec)
+
+//@ func (dec *Decoder) ReadUint16
+//@   property C07
+//@   requires DecOK(dec)
+//@   modifies *dec.buf
+//@   ensures [len] Len(dec) == old(Len(dec)) && Pos(dec) <= Len(dec)
+//@   ensures [ok] err == nil ==> Pos(dec) == old(Pos(dec)) + 2 && result0 <= MaximumEncodingInt
+//@   ensures [fail] 2 > old(Rest(dec)) ==> err != nil
+
+//@ func (dec *Decoder) ReadInt
+//@   property C07
+//@   requires DecOK(dec)
+//@   modifies *dec.buf
+//@   ensures [len] Len(dec) == old(Len(dec)) && Pos(dec) <= Len(dec)
+//@   ensures [ok] err == nil ==> Pos(dec) == old(Pos(dec)) + 2 && 0 <= result0 && result0 <= MaximumEncodingInt
+
+//@ func (dec *Decoder) ReadRoundReferences
+//@   property C07
+//@   requires DecOK(dec)
+//@   modifies *dec.buf
+//@   ensures [len] Len(dec) == old(Len(dec)) && Pos(dec) <= Len(dec)
+//@   ensures [ok] err == nil ==> Pos(dec) == old(Pos(dec)) + (result0 == nil ? 2 : 66)
+
+//@ func (dec *Decoder) ReadCosiSignature
+//@   property C07
+//@   requires DecOK(dec)
+//@   modifies *dec.buf
+//@   ensures [len] Len(dec) == old(Len(dec)) && Pos(dec) <= Len(dec)
+//@   ensures [ok] err == nil ==> Pos(dec) == old(Pos(dec)) + (result0 == nil ? 8 : 72) && (result0 != nil ==> result0.Mask != 0)
+
+//@ spec EncLenSnap(s *Snapshot) mathint = 4 + 32 + 8 + (s.References == nil ? 2 : 66) + 2 + 32 * len(s.Transactions) + 8 + (s.Signature == nil ? 8 : 72)
+
+//@ func (dec *Decoder) DecodeSnapshotWithTopo
+//@   property C07
+//@   requires DecOK(dec) && Pos(dec) == 0
+//@   ensures [canonical-length] err == nil ==> result0 != nil && result0.Snapshot != nil &&
+//@       ((Len(dec) == EncLenSnap(result0.Snapshot) && result0.TopologicalOrder == 0) || Len(dec) == EncLenSnap(result0.Snapshot) + 8)
+//@   ensures [count] err == nil ==> 1 <= len(result0.Snapshot.Transactions) && len(result0.Snapshot.Transactions) <= SnapshotTransactionsMaximum
+//@   ensures [order] err == nil ==> forall i int :: 1 <= i && i < len(result0.Snapshot.Transactions) ==> lexlt(result0.Snapshot.Transactions[i-1], result0.Snapshot.Transactions[i])
+//@   ensures [round0] err == nil ==> (result0.Snapshot.RoundNumber == 0 ==> len(result0.Snapshot.Transactions) == 1 && result0.Snapshot.References == nil) && (result0.Snapshot.RoundNumber != 0 ==> result0.Snapshot.References != nil)
+//@   ensures [version] err == nil ==> result0.Snapshot.Version >= SnapshotVersionCommonEncoding
+//@   loop 0 invariant DecOK(dec) && Len(dec) == old(Len(dec)) && s != nil && len(s.Transactions) == tl && Pos(dec) == 46 + (s.References == nil ? 2 : 66) + 32 * (rangeindex + 1)
+//@   loop 1 invariant DecOK(dec) && Len(dec) == old(Len(dec)) && s != nil && len(s.Transactions) == tl && Pos(dec) == 46 + (s.References == nil ? 2 : 66) + 32 * tl
+//@   loop 1 invariant 1 <= i
+//@   loop 1 invariant forall k int :: 1 <= k && k < i ==> lexlt(s.Transactions[k-1], s.Transactions[k])
